@@ -51,6 +51,9 @@ struct Spec {
     tag: u32,
     class: u32,
     panics: bool,
+    /// the panic happens while the arguments of an `eprintln!` are being evaluated (the closure
+    /// holds tiny-std's print lock at that moment)
+    panic_in_print: bool,
     nrec: u32,
     sleep_ms: u32,
     alloc: u32,
@@ -266,6 +269,10 @@ fn body<T: Val>(s: Spec, slot: usize) -> T {
     drop(scratch);
     slot.val.store(slot_value(s.tag), Ordering::SeqCst);
     if s.panics {
+        if s.panic_in_print {
+            let nothing: Option<u32> = None;
+            tiny_std::eprintln!("about to report {}", nothing.unwrap());
+        }
         panic!("scenario panic");
     }
     T::make(s.tag)
@@ -376,7 +383,8 @@ fn parse_args() -> Option<(u64, Vec<Vec<Spec>>)> {
         for _ in 0..nt {
             tag += 1;
             let class = it.next()? as u32;
-            let panics = it.next()? != 0;
+            let pk = it.next()?;
+            let (panics, panic_in_print) = (pk != 0, pk == 2);
             let nrec = it.next()? as u32;
             let sleep_ms = it.next()? as u32;
             let alloc = it.next()? as u32;
@@ -384,7 +392,7 @@ fn parse_args() -> Option<(u64, Vec<Vec<Spec>>)> {
             if class >= CLASSES || fate > FATE_DROP_LATER || nrec > 8 || alloc > 4096 {
                 return None;
             }
-            b.push(Spec { tag, class, panics, nrec, sleep_ms, alloc, fate });
+            b.push(Spec { tag, class, panics, panic_in_print, nrec, sleep_ms, alloc, fate });
         }
         batches.push(b);
     }
